@@ -20,7 +20,7 @@ ASSUMPTIONS = [
     'the solution file is written with ConfigParser.write exactly as `habutax solve --solution` does, plus the [habutax] section',
 ]
 
-FLOATS = [0.0, -0.0, 1.0, -1.5, 0.005, 2.675, 1e15, 1e-7, 123456789.125, -0.004, 99999.995, 1234.5]
+FLOATS = [0.0, -0.0, 1.0, -1.5, 0.005, 2.675, 1e15, 1e-7, 123456789.125, -0.004, 99999.995, 1234.5, 5e-05, -3e-05, 0.00012, 0.49999]
 INTS = [0, -1, 7, 10 ** 30]
 TEXTS = {
     'plain': 'plain', 'two-words': 'two  words', 'tab': 'tab\there', 'leading-space': '  lead', 'trailing-space': 'trail  ',
@@ -242,7 +242,7 @@ def run_shard(spec, tier, seed):
     # ---- generated values of every line type
     F, FM = hx.fields, hx.form
     cases = []
-    for places in (0, 2, 5):
+    for places in (0, 2, 5, 7):
         for v in FLOATS:
             cases.append((f'float{places}', f'{v!r}', 'float', places, v))
     for v in INTS:
@@ -282,7 +282,7 @@ def run_shard(spec, tier, seed):
             res.count('generated_value_cases')
             res.distinct.add(f'{tname}|{cname}')
             rp = {'engine': 'generated-value', 'line_type': tname, 'value_class': cname, 'value': repr(val)}
-            key = f'C14|gen|{tname.rstrip("025") if tname.startswith("float") else tname}|{cname if ltype in ("str", "enum") else "number"}'
+            key = f'C14|gen|{tname.rstrip("0257") if tname.startswith("float") else tname}|{cname if ltype in ("str", "enum") else "number"}'
             if 'gen.1' not in tv.stored:
                 res.count('generated_not_stored')
                 continue
